@@ -6,11 +6,13 @@
  *     T  pure timer, pending (5 s)            R  persistent EV_READ on fd 3, added
  *     E  the target: kind -DC08_KIND (K_IO fd 4 RW / K_TIMER / K_SIG signal 2 persistent),
  *        state -DC08_ST (0 assigned only, 1 added with a 2 s timeout, 2 active)
- * Arguments of the call are symbolic (flags, results, ncalls, priorities, timevals; fds/signals and
- * priority counts from small sets -- a symbolic table size is a symbolic-size realloc, DESIGN 3.3).
- * Faults are decided by the solver: every mm_malloc/mm_calloc/mm_realloc of the library may fail
- * (event.c's own mm_*_fn_ hooks), the back end may refuse add/del/dispatch, the signal back end may
- * refuse, the notify pipe may fail.
+ * Data arguments of the call are symbolic (result flags, ncalls, priorities, query masks).  Everything that
+ * decides the SHAPE of the resulting state is chosen by the solver too, but each alternative runs as its own
+ * unmerged scenario (PICK_* below): the fault vector (1st / 2nd allocation of the call fails, back end or signal
+ * back end refuses; later allocations fail nondeterministically -- through event.c's own mm_*_fn_ hooks), the
+ * timeout argument (NULL, 0, 1 s, 7.25 s: before/after the pending timer), fds / signal numbers / priority
+ * counts from small sets, which variant of the call.  Measured reason: a merged ite(NULL,obj) allocation result,
+ * a symbolic duration (= symbolic heap slot) or a symbolic fd (= symbolic evmap slot) each cost > 150 s per call.
  * Context -DC08_CTX: 0 no loop running; 1 call made from inside E's own callback (loop thread);
  * 2 call made by "another thread" (vp_cur_thread = 2) while the loop thread sits in the back end's
  * dispatch with the base lock released.
@@ -88,13 +90,81 @@ static int ncb_T, ncb_R, ncb_E, ncb_once, ncb_fin, ncb_self, ncb_watch, ncb_fore
 static int op_done;           /* the call under test has been made */
 static void the_call(void);
 
-/* ---- solver-chosen faults ----------------------------------------------------------------
- * The fault schedule of the call under test is a vector chosen by the solver, but each value of the vector
- * runs in its own unmerged branch (FOR_FAULTS): bit 0 = the 1st allocation of the call fails, bit 1 = the 2nd
- * fails, bit 2 = the back end / signal back end refuses.  Allocations after the 2nd fail nondeterministically.
- * (An allocator that decides per call returns ite(fail, NULL, obj); the library's own `if (!p) return` does
- * not turn that back into a plain pointer for symex, every list link written through it becomes symbolic --
- * measured: event_new + event_free > 150 s, per-branch schedule 10 s.) */
+/* ---- per-operation scenario dimensions --------------------------------------------------- */
+/* USE_FV: 0 no fault can matter, 1 only back-end refusal, 2 allocations + back end;  USE_TV: the call takes a timeout;
+ * NCH: number of variants of the call (g_ch) */
+#if C08_OP == OP_ADD
+#define USE_FV 2
+#define USE_TV 1
+#define NCH 1
+#elif C08_OP == OP_DEL || C08_OP == OP_DEL_BLOCK || C08_OP == OP_DEL_NOBLOCK || C08_OP == OP_FINALIZE
+#define USE_FV 1
+#define USE_TV 0
+#define NCH 1
+#elif C08_OP == OP_ACTIVE || C08_OP == OP_ACTIVE_LATER
+#define USE_FV 1
+#define USE_TV 0
+#define NCH 1
+#elif C08_OP == OP_NEW_FREE
+#define USE_FV 2
+#define USE_TV 0
+#define NCH 3
+#elif C08_OP == OP_FREE_FINALIZE
+#define USE_FV 2
+#define USE_TV 0
+#define NCH 2
+#elif C08_OP == OP_ONCE
+#define USE_FV 2
+#define USE_TV 1
+#define NCH 2
+#elif C08_OP == OP_LOOPEXIT
+#define USE_FV 2
+#define USE_TV 1
+#define NCH 1
+#elif C08_OP == OP_LOOP
+#define USE_FV 1
+#define USE_TV 0
+#define NCH 2
+#elif C08_OP == OP_PRIORITY_INIT
+#define USE_FV 2
+#define USE_TV 0
+#define NCH 4
+#elif C08_OP == OP_COMMON_TIMEOUT
+#define USE_FV 2
+#define USE_TV 0
+#define NCH 4
+#elif C08_OP == OP_WATCH
+#define USE_FV 2
+#define USE_TV 0
+#define NCH 4
+#elif C08_OP == OP_NOTIFIABLE
+#define USE_FV 2
+#define USE_TV 0
+#define NCH 2
+#elif C08_OP == OP_BASE_FREE
+#define USE_FV 1
+#define USE_TV 0
+#define NCH 2
+#elif C08_OP == OP_FOREACH || C08_OP == OP_PENDING || C08_OP == OP_ACTIVE_BY_SIGNAL || C08_OP == OP_CALLBACK || C08_OP == OP_DEFERRED || C08_OP == OP_FINALIZE_MANY
+#define USE_FV 0
+#define USE_TV 0
+#define NCH 2
+#elif C08_OP == OP_ACTIVE_BY_FD
+#define USE_FV 0
+#define USE_TV 0
+#define NCH 4
+#else
+#define USE_FV 0
+#define USE_TV 0
+#define NCH 1
+#endif
+static int g_fv, g_ch;
+static const struct timeval *g_tvp;
+static const struct timeval tv_0 = { 0, 0 }, tv_1 = { 1, 0 }, tv_7 = { 7, 250000 };
+
+/* ---- faults --------------------------------------------------------------------------------
+ * bit 0 = the 1st allocation of the call fails, bit 1 = the 2nd fails, bit 2 = the back end / signal back end
+ * refuses.  Allocations after the 2nd fail nondeterministically. */
 static int c08_fail_on, c08_fail_vec, c08_nalloc;
 static int c08_alloc_fails(void)
 {
@@ -113,14 +183,8 @@ static void c08_set_faults(int vec)
 #endif
 }
 #define FAULTS_OFF() do { c08_fail_on = 0; vp_be_fail_add = vp_be_fail_del = vp_sig_fail = vp_be_fail_dispatch = 0; } while (0)
-#define FOR_FAULTS(stmt) do { \
-	int f_ = (int)vp_range(0, 7); \
-	if (f_ == 0) { c08_set_faults(0); stmt; } else if (f_ == 1) { c08_set_faults(1); stmt; } \
-	else if (f_ == 2) { c08_set_faults(2); stmt; } else if (f_ == 3) { c08_set_faults(3); stmt; } \
-	else if (f_ == 4) { c08_set_faults(4); stmt; } else if (f_ == 5) { c08_set_faults(5); stmt; } \
-	else if (f_ == 6) { c08_set_faults(6); stmt; } else { c08_set_faults(7); stmt; } \
-	FAULTS_OFF(); \
-} while (0)
+/* the call under test runs under the scenario's fault vector; preparation calls run without faults */
+#define CALL(stmt) do { c08_set_faults(g_fv); stmt; FAULTS_OFF(); } while (0)
 
 void *c08_malloc(size_t sz)
 {
@@ -162,7 +226,7 @@ void cb(evutil_socket_t fd, short res, void *arg)
 #endif
 	} else ncb_once++;
 }
-void fin_cb(struct event *ev, void *arg) { (void)ev; (void)arg; ncb_fin++; }
+void fin_cb(struct event *ev, void *arg) { (void)ev; (void)arg; ncb_fin++; VP_ASSERT(vp_locks_held() == 0, "C08: finalizer entered with an internal lock held"); }
 void self_cb(struct event_callback *evcb, void *arg) { (void)evcb; (void)arg; ncb_self++; }
 void cbfin_cb(struct event_callback *evcb, void *arg) { (void)evcb; (void)arg; ncb_fin++; }
 void prep_cb(struct evwatch *w, const struct evwatch_prepare_cb_info *info, void *arg) { (void)w; (void)info; (void)arg; ncb_watch++; }
@@ -192,18 +256,7 @@ static int c08_dispatch(struct event_base *b, struct timeval *tv)
 }
 static const struct eventop c08_ops = { "c08", vp_be_init, vp_be_add, vp_be_del, c08_dispatch, vp_be_dealloc, 0, EV_FEATURE_FDS, 0 };
 
-/* timevals come from a small set, one unmerged branch each: a symbolic duration makes the heap
- * position of the event symbolic (DESIGN 3.9; measured here: event_add with a symbolic tv > 200 s) */
-#define FOR_TV(stmt) do { \
-	int c_ = (int)vp_range(0, 3); \
-	if (c_ == 0) { const struct timeval *tvp = NULL; stmt; } \
-	else if (c_ == 1) { struct timeval t_ = { 0, 0 }; const struct timeval *tvp = &t_; stmt; } \
-	else if (c_ == 2) { struct timeval t_ = { 1, 0 }; const struct timeval *tvp = &t_; stmt; } \
-	else { struct timeval t_ = { 7, 250000 }; const struct timeval *tvp = &t_; stmt; } \
-} while (0)
-
-/* event masks likewise are concrete per obligation (-DC08_WHAT=0..6): a symbolic mask makes ev_closure and
- * the evmap-vs-heap decision symbolic (measured: solver out of 4 GB), a symbolic fd makes the evmap slot symbolic */
+/* event masks are concrete per obligation (-DC08_WHAT=0..6) */
 #ifndef C08_WHAT
 #define C08_WHAT 1
 #endif
@@ -227,95 +280,32 @@ static const struct eventop c08_ops = { "c08", vp_be_init, vp_be_add, vp_be_del,
 int fputc(int c, FILE *f) { (void)f; return c; }   /* (cbmc's fprintf model calls it; it has no body of its own) */
 #endif
 
-/* ---- the call under test ---------------------------------------------------- */
+/* ---- the call under test (all scenario choices are concrete here) ---------------------------- */
 static struct event_callback CB1, CB2;
-static int r_call;
-#if C08_OP == OP_NEW_FREE
-static void new_free_calls(void)
-{
-	int fv = c08_fail_vec;
-	struct event *n = event_new(base, 6, WHAT, cb, NULL);
-	VP_ASSERT_NO_LOCKS("event_new");
-	if (n) {
-		int c = (int)vp_range(0, 2);
-		struct timeval t1 = { 1, 0 };
-		FAULTS_OFF();
-		if (c == 0) { c08_set_faults(fv >> 1); event_free(n); }
-		else if (c == 1) { (void)event_add(n, NULL); c08_set_faults(fv >> 1); event_free(n); }
-		else { (void)event_add(n, &t1); c08_set_faults(fv >> 1); event_free(n); }
-		VP_ASSERT_NO_LOCKS("event_free");
-	}
-}
-#endif
-#if C08_OP == OP_FREE_FINALIZE
-static void free_finalize_calls(void)
-{
-	int fv = c08_fail_vec;
-	struct event *n = event_new(base, 6, EV_READ, cb, NULL);
-	if (n) {
-		FAULTS_OFF();
-		if (vp_bool()) { c08_set_faults(fv >> 1); (void)event_free_finalize(0, n, fin_cb); }
-		else { (void)event_add(n, NULL); c08_set_faults(fv >> 1); (void)event_free_finalize(0, n, fin_cb); }
-		VP_ASSERT_NO_LOCKS("event_free_finalize");
-	}
-}
-#endif
-#if C08_OP == OP_WATCH
-static int watch_calls(int check)
-{
-	struct evwatch *w = check ? evwatch_check_new(base, chk_cb, NULL) : evwatch_prepare_new(base, prep_cb, NULL);
-	VP_ASSERT_NO_LOCKS("evwatch_*_new");
-	if (!w) return 0;
-	VP_ASSERT(evwatch_base(w) == base, "evwatch_base");
-	if (vp_bool()) { evwatch_free(w); VP_ASSERT_NO_LOCKS("evwatch_free"); }
-	return 1;
-}
-#endif
-#if C08_OP == OP_COMMON_TIMEOUT
-static int common_timeout_calls(const struct timeval *tv)
-{
-	const struct timeval *res = NULL;
-	int ok = 0;
-	if (vp_bool()) {           /* the registration itself under faults */
-		FOR_FAULTS((res = event_base_init_common_timeout(base, tv), ok = (res != NULL)));
-		return ok;
-	}
-	res = event_base_init_common_timeout(base, tv);   /* or: registered (preparation), then used under faults */
-	if (!res) return 0;
-	FOR_FAULTS((void)event_add(&E, res));
-	VP_ASSERT_NO_LOCKS("event_add with a common timeout");
-	VP_ASSERT(event_base_init_common_timeout(base, tv) == res, "same duration, same common timeout");
-	VP_ASSERT_NO_LOCKS("event_base_init_common_timeout (existing)");
-	return 1;
-}
-#endif
 static void the_call(void)
 {
 	int r = 0;
 #if C08_OP == OP_ADD
-	FOR_FAULTS(FOR_TV(r = event_add(&E, tvp)));
+	CALL(r = event_add(&E, g_tvp));
 	if (r == 0) VP_WITNESS("event_add ok");
 #if C08_ST == 0 && C08_KIND != K_TIMER
 	else VP_WITNESS("event_add failed");
 #endif
 #elif C08_OP == OP_DEL
-	FOR_FAULTS(r = event_del(&E));
+	CALL(r = event_del(&E));
 	if (r == 0) VP_WITNESS("event_del ok");
-#if C08_ST == 1 && C08_KIND != K_TIMER
+#if C08_ST == 1 && C08_KIND != K_TIMER && C08_CTX != 1
 	else VP_WITNESS("event_del failed");
 #endif
 #elif C08_OP == OP_DEL_BLOCK
-	FOR_FAULTS(r = event_del_block(&E));
+	CALL(r = event_del_block(&E));
 	VP_WITNESS("event_del_block returned");
 #elif C08_OP == OP_DEL_NOBLOCK
-	FOR_FAULTS(r = event_del_noblock(&E));
+	CALL(r = event_del_noblock(&E));
 	VP_WITNESS("event_del_noblock returned");
 #elif C08_OP == OP_ACTIVE
-	{
-		int res = vp_int(); short nc = (short)vp_u16();
-		FOR_FAULTS(event_active(&E, res, nc));
-		VP_WITNESS("event_active returned");
-	}
+	CALL(event_active(&E, vp_int(), (short)vp_u16()));
+	VP_WITNESS("event_active returned");
 #elif C08_OP == OP_ASSIGN
 	{
 		static struct event N;
@@ -327,13 +317,23 @@ static void the_call(void)
 	r = event_base_set(base, &E);
 	VP_WITNESS("event_base_set returned");
 #elif C08_OP == OP_NEW_FREE
-	/* event_new under faults, then event_free of the fresh event / of the event after it was added
-	 * (the add is preparation and runs without faults; add-with-faults is OP_ADD) */
-	FOR_FAULTS(new_free_calls());
-	VP_WITNESS("event_new/event_free returned");
+	{
+		/* event_new under faults, then event_free of the fresh event (g_ch 0) / of the event after it was added
+		 * (g_ch 1, 2; the add is preparation and runs without faults -- add-with-faults is OP_ADD) */
+		struct event *n;
+		CALL(n = event_new(base, 6, WHAT, cb, NULL));
+		VP_ASSERT_NO_LOCKS("event_new");
+		if (n) {
+			if (g_ch == 1) (void)event_add(n, NULL);
+			else if (g_ch == 2) (void)event_add(n, &tv_1);
+			g_fv >>= 1;
+			CALL(event_free(n));
+			VP_WITNESS("event_new ok, event_free returned");
+		} else VP_WITNESS("event_new failed");
+	}
 #elif C08_OP == OP_ONCE
-	if (vp_bool()) FOR_FAULTS(FOR_TV(r = event_base_once(base, 6, WHAT, cb, NULL, tvp)));
-	else FOR_FAULTS(FOR_TV(r = event_base_once(base, -1, WHAT, cb, NULL, tvp)));
+	if (g_ch == 0) CALL(r = event_base_once(base, 6, WHAT, cb, NULL, g_tvp));
+	else CALL(r = event_base_once(base, -1, WHAT, cb, NULL, g_tvp));
 #if C08_WHAT != 3 && C08_WHAT != 4 && C08_WHAT != 6
 	if (r == 0) VP_WITNESS("event_base_once ok");
 #endif
@@ -351,12 +351,12 @@ static void the_call(void)
 	r = event_base_loopcontinue(base);
 	VP_WITNESS("event_base_loopcontinue returned");
 #elif C08_OP == OP_LOOPEXIT
-	FOR_FAULTS(FOR_TV(r = event_base_loopexit(base, tvp)));
+	CALL(r = event_base_loopexit(base, g_tvp));
 	if (r == 0) VP_WITNESS("event_base_loopexit ok"); else VP_WITNESS("event_base_loopexit failed");
 #elif C08_OP == OP_LOOP
 	/* (from inside a callback or while another loop runs this is the re-entrant invocation) */
-	if (vp_bool()) FOR_FAULTS(r = event_base_loop(base, EVLOOP_NONBLOCK));
-	else FOR_FAULTS(r = event_base_loop(base, EVLOOP_ONCE));
+	if (g_ch == 0) CALL(r = event_base_loop(base, EVLOOP_NONBLOCK));
+	else CALL(r = event_base_loop(base, EVLOOP_ONCE));
 #if C08_CTX == 0
 	if (r == 0) VP_WITNESS("event_base_loop ran");
 #endif
@@ -379,39 +379,66 @@ static void the_call(void)
 	}
 #elif C08_OP == OP_FOREACH
 	foreach_ret = vp_int();
-	if (vp_bool()) r = event_base_foreach_event(base, foreach_cb, NULL);
+	if (g_ch == 0) r = event_base_foreach_event(base, foreach_cb, NULL);
 	else r = event_base_foreach_event(base, NULL, NULL);
 	if (r == 0) VP_WITNESS("event_base_foreach_event visited all"); else VP_WITNESS("event_base_foreach_event stopped");
 #elif C08_OP == OP_PENDING
 	{
 		struct timeval tv;
 		short what = (short)vp_u16();
-		if (vp_bool()) r = event_pending(&E, what, &tv); else r = event_pending(&E, what, NULL);
+		if (g_ch == 0) r = event_pending(&E, what, &tv); else r = event_pending(&E, what, NULL);
 		VP_WITNESS("event_pending returned");
 	}
 #elif C08_OP == OP_FINALIZE
-	FOR_FAULTS(r = event_finalize(0, &E, fin_cb));
+	CALL(r = event_finalize(0, &E, fin_cb));
 	VP_WITNESS("event_finalize returned");
 #elif C08_OP == OP_FREE_FINALIZE
-	FOR_FAULTS(free_finalize_calls());
-	VP_WITNESS("event_free_finalize returned");
-#elif C08_OP == OP_PRIORITY_INIT
 	{
-		int c = (int)vp_range(0, 4);
-		if (c == 0) { int n = vp_int(); __CPROVER_assume(n < 1 || n >= 256); r = event_base_priority_init(base, n); }
-		else if (c == 1) FOR_FAULTS(r = event_base_priority_init(base, 1));
-		else if (c == 2) FOR_FAULTS(r = event_base_priority_init(base, 2));
-		else if (c == 3) FOR_FAULTS(r = event_base_priority_init(base, 3));
-		else FOR_FAULTS(r = event_base_priority_init(base, 5));
-		if (r == 0) VP_WITNESS("event_base_priority_init ok"); else VP_WITNESS("event_base_priority_init failed");
+		struct event *n;
+		CALL(n = event_new(base, 6, EV_READ, cb, NULL));
+		if (n) {
+			if (g_ch == 1) (void)event_add(n, NULL);
+			g_fv >>= 1;
+			CALL(r = event_free_finalize(0, n, fin_cb));
+			VP_WITNESS("event_free_finalize returned");
+		}
 	}
+#elif C08_OP == OP_PRIORITY_INIT
+	if (g_ch == 0) { int n = vp_int(); __CPROVER_assume(n < 1 || n >= 256); r = event_base_priority_init(base, n); }
+	else if (g_ch == 1) CALL(r = event_base_priority_init(base, 1));
+	else if (g_ch == 2) CALL(r = event_base_priority_init(base, 2));
+	else CALL(r = event_base_priority_init(base, 5));
+	if (r == 0) VP_WITNESS("event_base_priority_init ok"); else VP_WITNESS("event_base_priority_init failed");
 #elif C08_OP == OP_COMMON_TIMEOUT
-	if (vp_bool()) { struct timeval tv = { 1, 0 }; r = common_timeout_calls(&tv); }
-	else { struct timeval tv = { 0, 1500000 }; r = common_timeout_calls(&tv); }
-	if (r) VP_WITNESS("event_base_init_common_timeout ok"); else VP_WITNESS("event_base_init_common_timeout failed");
+	{
+		/* g_ch bit 0: duration 1 s / 1.5 s given as 0 s + 1500000 us; bit 1: the registration itself under faults /
+		 * registered (preparation), then used by event_add under faults */
+		const struct timeval d1 = { 1, 0 }, d2 = { 0, 1500000 };
+		const struct timeval *d = (g_ch & 1) ? &d2 : &d1, *res;
+		if (g_ch & 2) {
+			CALL(res = event_base_init_common_timeout(base, d));
+		} else {
+			res = event_base_init_common_timeout(base, d);
+			VP_ASSERT_NO_LOCKS("event_base_init_common_timeout");
+			if (res) {
+				CALL(r = event_add(&E, res));
+				VP_ASSERT_NO_LOCKS("event_add with a common timeout");
+				VP_ASSERT(event_base_init_common_timeout(base, d) == res, "same duration, same common timeout");
+			}
+		}
+		if (res) VP_WITNESS("event_base_init_common_timeout ok"); else VP_WITNESS("event_base_init_common_timeout failed");
+	}
 #elif C08_OP == OP_WATCH
-	if (vp_bool()) FOR_FAULTS(r = watch_calls(0)); else FOR_FAULTS(r = watch_calls(1));
-	if (r) VP_WITNESS("evwatch new (+free)"); else VP_WITNESS("evwatch_*_new failed");
+	{
+		struct evwatch *w;
+		if (g_ch & 1) CALL(w = evwatch_check_new(base, chk_cb, NULL)); else CALL(w = evwatch_prepare_new(base, prep_cb, NULL));
+		VP_ASSERT_NO_LOCKS("evwatch_*_new");
+		if (w) {
+			VP_ASSERT(evwatch_base(w) == base, "evwatch_base");
+			if (g_ch & 2) { evwatch_free(w); VP_ASSERT_NO_LOCKS("evwatch_free"); }
+			VP_WITNESS("evwatch new (+free)");
+		} else VP_WITNESS("evwatch_*_new failed");
+	}
 #elif C08_OP == OP_GETTERS
 	{
 		unsigned ty = vp_u32();
@@ -430,16 +457,15 @@ static void the_call(void)
 	}
 #elif C08_OP == OP_ACTIVE_BY_FD
 	{
-		int c = (int)vp_range(0, 3);
 		short what = (short)vp_u16();
-		if (c == 0) event_base_active_by_fd(base, 3, what);
-		else if (c == 1) event_base_active_by_fd(base, 4, what);
-		else if (c == 2) event_base_active_by_fd(base, -1, what);
+		if (g_ch == 0) event_base_active_by_fd(base, 3, what);
+		else if (g_ch == 1) event_base_active_by_fd(base, 4, what);
+		else if (g_ch == 2) event_base_active_by_fd(base, -1, what);
 		else event_base_active_by_fd(base, 40, what);
 		VP_WITNESS("event_base_active_by_fd returned");
 	}
 #elif C08_OP == OP_ACTIVE_BY_SIGNAL
-	if (vp_bool()) event_base_active_by_signal(base, 2); else event_base_active_by_signal(base, 7);
+	if (g_ch == 0) event_base_active_by_signal(base, 2); else event_base_active_by_signal(base, 7);
 	VP_WITNESS("event_base_active_by_signal returned");
 #elif C08_OP == OP_VIRTUAL
 	event_base_add_virtual_(base);
@@ -448,45 +474,87 @@ static void the_call(void)
 	VP_WITNESS("virtual add/del returned");
 #elif C08_OP == OP_NOTIFIABLE
 	base->th_notify_fn = NULL;       /* as in a base that was created before threading was switched on */
-	if (vp_bool()) { vp_pipe_fail = 1; r = evthread_make_base_notifiable(base); }
-	else { vp_pipe_fail = 0; FOR_FAULTS(r = evthread_make_base_notifiable(base)); }
+	vp_pipe_fail = (g_ch == 1);
+	CALL(r = evthread_make_base_notifiable(base));
 	if (r == 0) VP_WITNESS("evthread_make_base_notifiable ok"); else VP_WITNESS("evthread_make_base_notifiable failed");
 #elif C08_OP == OP_CALLBACK
 	event_callback_init_(base, &CB1);
 	CB1.evcb_closure = EV_CLOSURE_CB_SELF; CB1.evcb_cb_union.evcb_selfcb = self_cb;
 	r = event_callback_activate_(base, &CB1); VP_ASSERT_NO_LOCKS("event_callback_activate_");
-	if (vp_bool()) { r = event_callback_cancel_(base, &CB1); VP_ASSERT_NO_LOCKS("event_callback_cancel_"); }
+	if (g_ch == 0) { r = event_callback_cancel_(base, &CB1); VP_ASSERT_NO_LOCKS("event_callback_cancel_"); }
 	else { event_callback_finalize_(base, 0, &CB1, cbfin_cb); }
 	VP_WITNESS("event_callback_* returned");
 #elif C08_OP == OP_DEFERRED
-	if (vp_bool()) event_deferred_cb_init_(&CB1, 0, self_cb, NULL); else event_deferred_cb_init_(&CB1, 1, self_cb, NULL);
+	event_deferred_cb_init_(&CB1, 1, self_cb, NULL);
 	r = event_deferred_cb_schedule_(base, &CB1); VP_ASSERT_NO_LOCKS("event_deferred_cb_schedule_");
 	r = event_deferred_cb_schedule_(base, &CB1); VP_ASSERT_NO_LOCKS("event_deferred_cb_schedule_ (again)");
-	if (vp_bool()) event_deferred_cb_cancel_(base, &CB1);
+	if (g_ch == 0) event_deferred_cb_cancel_(base, &CB1);
 	VP_WITNESS("event_deferred_cb_* returned");
 #elif C08_OP == OP_ACTIVE_LATER
-	event_active_later_(&E, vp_int());
+	CALL(event_active_later_(&E, vp_int()));
 	VP_WITNESS("event_active_later_ returned");
 #elif C08_OP == OP_FINALIZE_MANY
 	{
 		struct event_callback *v[2] = { &CB1, &CB2 };
 		event_deferred_cb_init_(&CB1, 0, self_cb, NULL);
 		event_deferred_cb_init_(&CB2, 1, self_cb, NULL);
-		if (vp_bool()) { (void)event_deferred_cb_schedule_(base, &CB2); r = event_callback_finalize_many_(base, 2, v, cbfin_cb); }
-		else r = event_callback_finalize_many_(base, 2, v, cbfin_cb);
+		if (g_ch == 0) (void)event_deferred_cb_schedule_(base, &CB2);
+		r = event_callback_finalize_many_(base, 2, v, cbfin_cb);
 		VP_WITNESS("event_callback_finalize_many_ returned");
 	}
 #elif C08_OP == OP_ASSERT_OK
 	event_base_assert_ok_(base);
 	VP_WITNESS("event_base_assert_ok_ returned");
 #elif C08_OP == OP_BASE_FREE
-	if (vp_bool()) FOR_FAULTS(event_base_free(base)); else FOR_FAULTS(event_base_free_nofinalize(base));
+	if (g_ch == 0) CALL(event_base_free(base)); else CALL(event_base_free_nofinalize(base));
 	VP_WITNESS("event_base_free returned");
 #else
 #error "unknown C08_OP"
 #endif
-	r_call = r;
+	(void)r;
 }
+
+/* one complete scenario; every PICK_* choice is a constant here */
+static void scenario(void)
+{
+#if C08_CTX == 0
+	op_done = 1;
+	the_call();
+	VP_ASSERT_NO_LOCKS("API call");
+#else
+	(void)event_base_loop(base, EVLOOP_ONCE);
+	VP_ASSERT(op_done, "harness: the call under test was made");
+	VP_ASSERT_NO_LOCKS("event_base_loop around the call");
+#endif
+}
+
+/* solver-chosen, but one unmerged branch per value */
+#if USE_FV == 2
+#define PICK_FV(stmt) do { int f_ = (int)vp_range(0, 7); \
+	if (f_ == 0) { g_fv = 0; stmt; } else if (f_ == 1) { g_fv = 1; stmt; } else if (f_ == 2) { g_fv = 2; stmt; } \
+	else if (f_ == 3) { g_fv = 3; stmt; } else if (f_ == 4) { g_fv = 4; stmt; } else if (f_ == 5) { g_fv = 5; stmt; } \
+	else if (f_ == 6) { g_fv = 6; stmt; } else { g_fv = 7; stmt; } } while (0)
+#elif USE_FV == 1
+#define PICK_FV(stmt) do { if (vp_bool()) { g_fv = 0; stmt; } else { g_fv = 4; stmt; } } while (0)
+#else
+#define PICK_FV(stmt) do { g_fv = 0; stmt; } while (0)
+#endif
+#if USE_TV
+#define PICK_TV(stmt) do { int c_ = (int)vp_range(0, 3); \
+	if (c_ == 0) { g_tvp = NULL; stmt; } else if (c_ == 1) { g_tvp = &tv_0; stmt; } \
+	else if (c_ == 2) { g_tvp = &tv_1; stmt; } else { g_tvp = &tv_7; stmt; } } while (0)
+#else
+#define PICK_TV(stmt) do { stmt; } while (0)
+#endif
+#if NCH == 1
+#define PICK_CH(stmt) do { g_ch = 0; stmt; } while (0)
+#elif NCH == 2
+#define PICK_CH(stmt) do { if (vp_bool()) { g_ch = 0; stmt; } else { g_ch = 1; stmt; } } while (0)
+#elif NCH == 3
+#define PICK_CH(stmt) do { int h_ = (int)vp_range(0, 2); if (h_ == 0) { g_ch = 0; stmt; } else if (h_ == 1) { g_ch = 1; stmt; } else { g_ch = 2; stmt; } } while (0)
+#else
+#define PICK_CH(stmt) do { int h_ = (int)vp_range(0, 3); if (h_ == 0) { g_ch = 0; stmt; } else if (h_ == 1) { g_ch = 1; stmt; } else if (h_ == 2) { g_ch = 2; stmt; } else { g_ch = 3; stmt; } } while (0)
+#endif
 
 void harness_api(void)
 {
@@ -512,20 +580,6 @@ void harness_api(void)
 	event_active(&E, EV_READ, 1);
 #endif
 	VP_ASSERT_NO_LOCKS("setup");
-	/* (faults are switched on by FOR_FAULTS around the call under test) */
-#if C08_CTX == 0
-	op_done = 1;
-	the_call();
-	VP_ASSERT_NO_LOCKS("API call");
-#if defined(C08_POST_LOOP) && C08_OP != OP_BASE_FREE
-	/* and the loop still runs and returns balanced afterwards */
-	(void)event_base_loop(base, EVLOOP_NONBLOCK);
-	VP_ASSERT_NO_LOCKS("event_base_loop after the call");
-#endif
-#else
-	r = event_base_loop(base, EVLOOP_ONCE);
-	VP_ASSERT(op_done, "harness: the call under test was made");
-	VP_ASSERT_NO_LOCKS("event_base_loop around the call");
-#endif
+	PICK_FV(PICK_TV(PICK_CH(scenario())));
 	VP_WITNESS("end of harness");
 }
